@@ -265,12 +265,20 @@ def clenshaw_qbfs_der(cs, usq, j=1, alphas=None):
 
     """
     x = usq
+    if len(cs) == 1:
+        # Clenshaw's recurrence is seeded from the two highest orders, and S
+        # is formed from alphas[.][0] and alphas[.][1];
+        # a lone Q0 term is the same sum as [c0, 0]
+        cs = [cs[0], 0]
+
     M = len(cs) - 1
     prefix = 2 - 4 * x
     alphas = _initialize_alphas(cs, usq, alphas, j=j)
     # seed with j=0 (S, not its derivative)
     clenshaw_qbfs(cs, usq, alphas[0])
-    for jj in range(1, j+1):
+    # derivatives of order > M of a degree M polynomial are zero, as alphas
+    # was initialized
+    for jj in range(1, min(j, M)+1):
         alphas[jj][M-j] = -4 * jj * alphas[jj-1][M-jj+1]
         for n in range(M-2, -1, -1):
             # this is hideous, and just expresses:
@@ -1070,7 +1078,9 @@ def clenshaw_q2d_der(cns, m, usq, j=1, alphas=None):
     # a^j = j B_n * a_n+1^j+1 + (A_n + B_n x) A_n+1^j - C_n+1 a_n+2^j
     #
     # return alphas
-    for jj in range(1, j+1):
+    # derivatives of order > N of a degree N polynomial are zero, as alphas
+    # was initialized
+    for jj in range(1, min(j, N)+1):
         _, b, _ = abc_q2d_clenshaw(N-jj, m)
         alphas[jj][N-jj] = j * b * alphas[jj-1][N-jj+1]
         for n in range(N-jj-1, -1, -1):
